@@ -293,6 +293,22 @@ def replace_panics(body):
     return ''.join(out), n
 
 
+def body_skeleton(blines):
+    """Line/brace structure of a function body: per line, indentation and the braces/parens outside strings and comments.
+    Unchanged by in-place edits of expressions, identifiers, literals and operators; changed by added/removed lines or blocks."""
+    import hashlib
+    parts = []
+    for l in blines:
+        st = l.strip()
+        if st.startswith('//'):
+            parts.append('c')
+            continue
+        ind = len(l) - len(l.lstrip(' '))
+        br = ''.join(c for _, c in scan(l) if c in '{}')
+        parts.append('%d%s' % (ind, br))
+    return hashlib.sha1('|'.join(parts).encode()).hexdigest()[:16] + ':%d' % len(blines)
+
+
 class Splice:
     """Contract text for one extracted function."""
 
@@ -306,7 +322,7 @@ class Splice:
         self.exit = []          # before the closing brace of the body (functions that end without a tail expression)
 
 
-def extract_function(src, relpath, container, name, splice, opts):
+def extract_function(src, relpath, container, name, splice, opts, lock=None):
     """Return list of (text_line, origin) for the spliced function.
     origin = ('src', relpath, lineno) | ('spec', template_line)"""
     info = find_fn(src, container, name, int(opts.get('nth', 0)))
@@ -374,22 +390,39 @@ def extract_function(src, relpath, container, name, splice, opts):
         raise ExtractError('loop count drift in `%s`: expected %s, found %d' % (name, opts['nloops'], len(loops)))
     mask_lines = None
 
-    def find_line(pattern, occ):
-        hits = [i for i, l in enumerate(blines) if pattern in l and not l.strip().startswith('//')]
-        if not hits:
-            raise ExtractError('lost anchor: no line containing `%s` in fn `%s`' % (pattern, name))
-        if occ is None:
-            if len(hits) > 1:
-                raise ExtractError('ambiguous anchor: `%s` matches %d lines in fn `%s`' % (pattern, len(hits), name))
-            return hits[0]
-        if occ > len(hits):
-            raise ExtractError('lost anchor: occurrence %d of `%s` in fn `%s`' % (occ, pattern, name))
-        return hits[occ - 1]
+    skeleton = body_skeleton(blines)
+    anchor_record = {}
+    fallbacks = []
+
+    def find_line(pattern, occ, kind):
+        key = '%s|%s|%s' % (kind, pattern, occ)
+        try:
+            hits = [i for i, l in enumerate(blines) if pattern in l and not l.strip().startswith('//')]
+            if not hits:
+                raise ExtractError('lost anchor: no line containing `%s` in fn `%s`' % (pattern, name))
+            if occ is None:
+                if len(hits) > 1:
+                    raise ExtractError('ambiguous anchor: `%s` matches %d lines in fn `%s`' % (pattern, len(hits), name))
+                idx = hits[0]
+            else:
+                if occ > len(hits):
+                    raise ExtractError('lost anchor: occurrence %d of `%s` in fn `%s`' % (occ, pattern, name))
+                idx = hits[occ - 1]
+        except ExtractError:
+            # Positional fallback: the text of the anchor line changed but the body has exactly the line/brace structure
+            # recorded when the unit was admitted (vc lock): the hint goes where it was.  Any other drift stays 'lost anchor'.
+            if lock and lock.get('skeleton') == skeleton and key in lock.get('anchors', {}):
+                idx = lock['anchors'][key]
+                fallbacks.append(key)
+            else:
+                raise
+        anchor_record[key] = idx
+        return idx
 
     for pattern, occ, items in splice.before:
-        inserts_before_line.setdefault(find_line(pattern, occ), []).extend(items)
+        inserts_before_line.setdefault(find_line(pattern, occ, 'before'), []).extend(items)
     for pattern, occ, items in splice.after:
-        inserts_after_line.setdefault(find_line(pattern, occ), []).extend(items)
+        inserts_after_line.setdefault(find_line(pattern, occ, 'after'), []).extend(items)
     if splice.tail:
         k = len(blines) - 2
         while k > 0 and not blines[k].strip():
@@ -424,7 +457,8 @@ def extract_function(src, relpath, container, name, splice, opts):
         for tl, t in inserts_after_line.get(i, []):
             out.append((t, ('spec', tl)))
     meta = dict(file=relpath, container=container, name=name, line=first_line, nloops=len(loops),
-                panics_replaced=npanic, body_lines=len(blines), src_sig=_norm(src[info['fn_kw']:info['body_open']]))
+                panics_replaced=npanic, body_lines=len(blines), src_sig=_norm(src[info['fn_kw']:info['body_open']]),
+                skeleton=skeleton, anchors=anchor_record, anchor_fallbacks=fallbacks)
     return out, meta
 
 
